@@ -257,9 +257,10 @@ int32 Vdetach(int32 vkey)
                        (g_vg->vgclass != NULL || g_clen == 0))
     __CPROVER_requires(Vgbuf != NULL || Vgbufsize == 0)
     __CPROVER_assigns(g_v->nattach, g_vg->marked, g_vg->new_vg, g_vg->version, g_vg->old_alist, g_vg->noldattrs,
-                      Vgbuf, Vgbufsize, Vgbuf != NULL: __CPROVER_object_whole(Vgbuf),
+                      Vgbuf, Vgbufsize,
                       g_live0, g_rem_n, g_seq, g_chk_n, g_reuse_n, g_reuse_seq, g_put_n, g_put_seq, g_put_f, g_put_len,
                       g_put_ret, g_put_tag, g_put_ref, g_put_data, g_put_byte, g_io_failed)
+    __CPROVER_assigns(Vgbuf != NULL: __CPROVER_object_whole(Vgbuf))
     __CPROVER_frees(Vgbuf, g_vg->old_alist)
     __CPROVER_ensures(__CPROVER_return_value == SUCCEED || __CPROVER_return_value == FAIL)
     /* C13: an id that is not (or no longer) registered is refused and nothing changes */
